@@ -51,6 +51,8 @@ package circuit
 //@   ensures [C15] close_iff_reset: prevGeneration == G1 && success && S1 == StateHalfOpen ==> (apply(b.shouldResetFunc, cur1, succ0 + 1, 0) ? b.state == StateClosed && b.generation == G1 + 1 && b.counts.ConsecutiveSuccesses == 0 && b.counts.ConsecutiveFailures == 0 : b.state == StateHalfOpen && b.generation == G1 && b.counts.ConsecutiveSuccesses == succ0 + 1 && b.counts.ConsecutiveFailures == 0)
 //@   ensures [C15] trip_iff_rule: prevGeneration == G1 && !success && S1 == StateClosed ==> (apply(b.shouldTripFunc, cur1, 0, fail0 + 1) ? b.state == StateOpen && b.generation == G1 + 1 && b.counts.ConsecutiveFailures == 0 && b.counts.ConsecutiveSuccesses == 0 && called(@setBackoff:backoffDurationFunc#1) && b.backoffExpires == clock + @setBackoff:backoffDurationFunc#1 : b.state == StateClosed && b.generation == G1 && b.counts.ConsecutiveFailures == fail0 + 1 && b.counts.ConsecutiveSuccesses == 0 && b.backoffExpires == locked(b.backoffExpires))
 //@   ensures [C15] halfopen_failure_reopens: prevGeneration == G1 && !success && S1 == StateHalfOpen ==> b.state == StateOpen && b.generation == G1 + 1 && called(@setBackoff:backoffDurationFunc#1) && b.backoffExpires == clock + @setBackoff:backoffDurationFunc#1
+// a failed probe ends the streak of successes (the reset rule is about consecutive ones) and counts as a failure
+//@   ensures [C15] halfopen_failure_breaks_the_streak: prevGeneration == G1 && !success && S1 == StateHalfOpen ==> b.counts.ConsecutiveSuccesses == 0 && b.counts.ConsecutiveFailures == fail0 + 1
 //@   ensures [C15] success_keeps_backoff: prevGeneration == G1 && success ==> b.backoffExpires == locked(b.backoffExpires)
 
 //@ func (b *Breaker) Call(f func() (interface{}, error)) (interface{}, error)
